@@ -5,6 +5,7 @@ import (
 	"fmt"
 	"math/rand"
 	"net/http"
+	"runtime/debug"
 	"sort"
 	"strconv"
 	"strings"
@@ -200,7 +201,7 @@ func sortedHeader(h http.Header) []string {
 }
 
 func c05(r *hx.Run) {
-	r.Rule = "cases: body length from {0,1,2,17,min-1,min,min+1,min+300,4 KiB,64 KiB,200 KB,(rarely 2 MiB)} x kind {random, text, long runs, zeros (ratio up to >1000x)} x upstream encoding {identity,gzip,br,lz4,zst,snz} (reference encoders self-checked) x content type x status {200,201,203,404,500} x cacheable or not x GET/POST, on six servers (min length default/1/100/64kb, custom filter, compress levels 1/9+11/out-of-range, tiny cache with store); paths: fetching request and waiters (burst of 3), later hits, hit after restore from the store (after eviction), hit-for-pass, passed; each request with its own Accept-Encoding from 13 plain lists. Compared: status, decoded body, Content-Encoding accepted (token match), Content-Length, end-to-end headers (multiset and order). Non-trivial/distinct = (path, upstream encoding, accept class, size class, kind, server)."
+	r.Rule = "cases: body length from {0,1,2,17,min-1,min,min+1,min+300,4 KiB,64 KiB,200 KB,(rarely 2 MiB)} x kind {random, text, long runs, zeros (ratio up to >1000x)} x upstream encoding {identity,gzip,br,lz4,zst,snz} (reference encoders self-checked) x content type x status {200,201,203,404,500} x cacheable or not x GET/POST, on six servers (min length default/1/100/64kb, custom filter, compress levels 1/9+11/out-of-range, tiny cache with store); paths: fetching request and waiters (burst of 3), later hits, hit after restore from the store (after eviction), hit-for-pass, passed, and hits on entries stored earlier in the run (after many other responses have been compressed); each request with its own Accept-Encoding from 13 plain lists. Compared: status, decoded body, Content-Encoding accepted (token match), Content-Length, end-to-end headers (multiset and order). Non-trivial/distinct = (path, upstream encoding, accept class, size class, kind, server)."
 	r.Assume = []string{"Date, Connection, Content-Length, Content-Encoding, Age, X-Status and hop-by-hop headers are excluded from the header comparison", "br/lz4/zst/snz reference codecs are the libraries pike links"}
 	rnd := rand.New(rand.NewSource(r.Seed))
 	w, srvs, stores := c05World(r)
@@ -230,8 +231,31 @@ func c05(r *hx.Run) {
 		return &hx.Reply{Status: c.Status, Header: h, Body: enc, Orig: orig, Encoding: c.Encoding}
 	})
 	n := r.Pick(400, 12000)
+	type visited struct {
+		c c05Case
+		s c05Srv
+	}
+	var earlier []visited
+	revisit := func() {
+		// entries stored earlier must still be served unaltered after many other responses were compressed
+		for k := 0; k < 12 && len(earlier) > 0; k++ {
+			v := earlier[rnd.Intn(len(earlier))]
+			accept := c05Accepts[rnd.Intn(len(c05Accepts))]
+			hdr := http.Header{}
+			if accept != "" {
+				hdr.Set("Accept-Encoding", accept)
+			}
+			res := w.Cl.Do(hx.Req{Method: "GET", Addr: v.s.addr, Host: "c05.example", URI: v.c.URI, Header: hdr})
+			if res.Label == "hit" {
+				c05Compare(r, w, v.c, "revisited_hit", accept, res)
+			}
+		}
+	}
 	for i := 0; i < n && !r.TooMany(); i++ {
 		c, s := c05Gen(rnd, i, srvs)
+		if i%10 == 9 {
+			revisit()
+		}
 		cur = c
 		do := func(path string, burstN int) bool {
 			accepts := make([]string, burstN)
@@ -301,6 +325,9 @@ func c05(r *hx.Run) {
 		if !do(later, 3) {
 			continue
 		}
+		if c.Cacheable && !s.store && len(earlier) < 400 {
+			earlier = append(earlier, visited{c, s})
+		}
 		if s.store && c.Cacheable {
 			// evict the key from the tiny LRU, then come back: restored from the store
 			for k := 0; k < 40; k++ {
@@ -315,12 +342,52 @@ func c05(r *hx.Run) {
 		if i%400 == 0 {
 			r.Sample(c)
 		}
-		if i%100 == 0 {
-			w.Farm.Trim()
-		}
 	}
+	c05AliasStress(r, w, srvs, rnd, &cur)
 	r.Add("cases_where_reference_encoder_declined", skipped)
 	_ = stores
 }
 
 func init() { register("C05", "exploration", c05) }
+
+// c05AliasStress: many small compressible entries are stored in quick succession (few garbage
+// collections, so recycled buffers stay around), then all are read back with every coding: a stored
+// variant that shares memory with a later compression shows up as an altered body
+func c05AliasStress(r *hx.Run, w *W, srvs []c05Srv, rnd *rand.Rand, cur *c05Case) {
+	old := debug.SetGCPercent(800)
+	defer debug.SetGCPercent(old)
+	rounds := r.Pick(3, 40)
+	for round := 0; round < rounds && !r.TooMany(); round++ {
+		s := srvs[rnd.Intn(3)]
+		n := 120
+		cases := make([]c05Case, n)
+		for i := range cases {
+			cases[i] = c05Case{URI: fmt.Sprintf("/c05alias/%d/%d", round, i), Server: s.name, Method: "GET", Status: 200, BodyLen: 1500 + rnd.Intn(3000), BodyKind: "text",
+				Encoding: []string{"", "", "gzip", "zst"}[rnd.Intn(4)], Level: 5, Type: "text/html", Cacheable: true}
+		}
+		for i := range cases {
+			*cur = cases[i]
+			accept := []string{"gzip", "br", ""}[rnd.Intn(3)]
+			hdr := http.Header{}
+			if accept != "" {
+				hdr.Set("Accept-Encoding", accept)
+			}
+			res := w.Cl.Do(hx.Req{Addr: s.addr, Host: "c05.example", URI: cases[i].URI, Header: hdr})
+			c05Compare(r, w, cases[i], "alias_stress_store", accept, res)
+		}
+		for pass := 0; pass < 2; pass++ {
+			for i := range cases {
+				accept := []string{"gzip", "br", "", "gzip, identity"}[(i+pass)%4]
+				hdr := http.Header{}
+				if accept != "" {
+					hdr.Set("Accept-Encoding", accept)
+				}
+				res := w.Cl.Do(hx.Req{Addr: s.addr, Host: "c05.example", URI: cases[i].URI, Header: hdr})
+				if res.Label == "hit" {
+					c05Compare(r, w, cases[i], "alias_stress_readback", accept, res)
+				}
+			}
+		}
+		r.Add("alias_stress_rounds", 1)
+	}
+}
